@@ -28,6 +28,8 @@ type retRec struct {
 	results []Val
 	st      *State
 	blk     *ssa.BasicBlock
+	iterSt  *State         // head state of the innermost invariant loop the return sits in (nil: none)
+	iterVars map[string]Val
 }
 
 type Frame struct {
@@ -54,6 +56,7 @@ type Frame struct {
 	ranges    []*MapIter
 	rangeOf   []*ssa.Range
 	localVars map[string]Val
+	allocNames map[string]bool // names of locals that live in an allocation
 	localsOut map[*ssa.BasicBlock]map[string]Val
 	edges       map[*ssa.BasicBlock][]inEdge
 	pendingBack map[*ssa.BasicBlock][]inEdge
